@@ -172,11 +172,11 @@ PROPS['C08'] = dict(
 )
 PROPS['C13'] = dict(
     technique='sequential lock-discipline reduction as contract overlay: shared container fields hold poison whenever the ghost lock depth is 0 (revealed at first acquisition, hidden again at final release); every sequential contract must still hold',
-    text='For the thread-safe vector (all operations, unbounded contracts) and list (insert, copying get / pop / remove, toarray/tostring) the operation is shown to touch shared state only inside one critical section: with num/max/data (vector) resp. num/datasum/first/last (list) replaced by arbitrary values outside the lock, every postcondition and every safety obligation still holds, and the lock is released on return. Linearizability then follows from the standard reduction (all shared accesses of an operation inside one critical section of one mutex).',
+    text='For the thread-safe vector (all operations, unbounded contracts), list (insert, copying get / pop / remove, toarray/tostring), list table (put, get, getmulti, remove), hash table (put, get, remove) and tree table (put, remove, get, find_min/max, clear) the operation is shown to touch shared state only inside ONE critical section: with the shared fields replaced by arbitrary values whenever the ghost lock depth is 0, every postcondition and every safety obligation of the sequential contract still holds, at most one outermost acquisition happens, and the lock is released on return. Linearizability then follows from the standard reduction (all shared accesses of an operation inside one critical section of one mutex).',
     design_ref='DESIGN.md section 3 C13',
-    note='No interleaving is explored: this decides the lock discipline, the reduction theorem and POSIX mutex semantics are assumed. Tree table, hash table and list table overlays are not built; unlocked single-word reads such as size() are outside the operation list of the property.',
+    note='No interleaving is explored: this decides the lock discipline, the reduction theorem and POSIX mutex semantics are assumed. Unlocked single-word reads such as size(), and the tree walk (documented to run under the caller\'s lock) are outside the overlay; bounds of the host harnesses apply.',
     trusted_base=COMMON_TRUST + [PTHREAD_TRUST, 'reduction theorem (operations whose shared accesses lie in one critical section are atomic): assumed, not mechanised'],
-    unchecked=['actual interleavings / data races on fields not poisoned', 'qtreetbl, qhashtbl, qlisttbl overlays'],
+    unchecked=['actual interleavings / data races on fields not poisoned', 'getnext walks, clear/free of list and hash table, qlog'],
 )
 
 NOT_APPLICABLE = {
